@@ -350,7 +350,7 @@ def lock_order(ctx, rid, scope_pred=None, floor=10):
         for pos, key, v, kind, st in la.acquire_events:
             if kind is True and v.mutex:
                 s.add((v.mutex, mutex_node(fb, f, top, v.mutex)))
-        acq[(f.unit.name, f.id)] = s
+        acq[(f.unit.name, f.uid)] = s
     # propagate through calls on this / members (bounded)
     changed = True
     rounds = 0
@@ -359,18 +359,18 @@ def lock_order(ctx, rid, scope_pred=None, floor=10):
         changed = False
         rounds += 1
         for f in fns:
-            mine = acq[(f.unit.name, f.id)]
+            mine = acq[(f.unit.name, f.uid)]
             top = top_function(fb, f) if f.is_lambda else f
             for st in f.stmts.values():
                 if st["k"] not in CALLS:
                     continue
                 g = fb.callee_fn(f, st)
-                if g is None or (g.unit.name, g.id) not in acq or g is f:
+                if g is None or (g.unit.name, g.uid) not in acq or g is f:
                     continue
                 mapping = {}
                 if st["k"] == "CXXMemberCallExpr":
                     mapping["this"] = path(f, f.s(st["obj"]))
-                for mp, node in acq[(g.unit.name, g.id)]:
+                for mp, node in acq[(g.unit.name, g.uid)]:
                     if mp.startswith("this") and mapping.get("this"):
                         np_ = subst(mp, mapping)
                     else:
@@ -402,7 +402,7 @@ def lock_order(ctx, rid, scope_pred=None, floor=10):
             if st["k"] not in CALLS:
                 continue
             g = fb.callee_fn(f, st)
-            if g is None or (g.unit.name, g.id) not in acq:
+            if g is None or (g.unit.name, g.uid) not in acq:
                 continue
             pos = f.pos_of(st)
             if pos is None:
@@ -413,7 +413,7 @@ def lock_order(ctx, rid, scope_pred=None, floor=10):
             mapping = {}
             if st["k"] == "CXXMemberCallExpr":
                 mapping["this"] = path(f, f.s(st["obj"]))
-            for mp, node in acq[(g.unit.name, g.id)]:
+            for mp, node in acq[(g.unit.name, g.uid)]:
                 ap = subst(mp, mapping) if (mp.startswith("this") and mapping.get("this")) else None
                 selfdead = any(m == ap for m, _ in held) if ap else False
                 ctx.ob(rid, not selfdead, f.loc(st),
@@ -708,7 +708,7 @@ def call_closure(fb, f, limit=400):
     """functions (with bodies under the roots) reachable from f through
     resolved callees; virtual calls fan out to every same-named virtual
     override that was extracted.  Returns list of (function, via call stmt, caller)."""
-    seen = {(f.unit.name, f.id)}
+    seen = {(f.unit.name, f.uid)}
     out = [(f, None, None)]
     work = [f]
     while work and len(out) < limit:
@@ -732,7 +732,7 @@ def call_closure(fb, f, limit=400):
                     if h is not None:
                         cands.append(h)
             for h in cands:
-                k = (h.unit.name, h.id)
+                k = (h.unit.name, h.uid)
                 if k in seen or h.invalid:
                     continue
                 seen.add(k)
@@ -744,8 +744,8 @@ def call_closure(fb, f, limit=400):
                 d = e.get("dtor") if isinstance(e.get("dtor"), dict) else None
                 if d and d.get("id"):
                     h = g.unit.fn_by_id.get(d["id"])
-                    if h is not None and (h.unit.name, h.id) not in seen and not h.invalid:
-                        seen.add((h.unit.name, h.id))
+                    if h is not None and (h.unit.name, h.uid) not in seen and not h.invalid:
+                        seen.add((h.unit.name, h.uid))
                         out.append((h, None, g))
                         work.append(h)
     return out
